@@ -3,6 +3,9 @@
 use super::*;
 include!("/verif/harness/common.rs");
 
+// slice-based family, selected per property at compile time (see harness/ripd/session.rs)
+include!(env!("VERIF_SLICE_C14_TOOLS"));
+
 fn stub_uuid_v4() -> Uuid {
     Uuid::from_bytes([7u8; 16])
 }
